@@ -231,8 +231,8 @@ func parseXRange(rangeStr string) ([]*constraint, error) {
 		return nil, fmt.Errorf("invalid major version in x-range: %s", parts[0])
 	}
 
-	// 1.x means >=1.0.0-0 <2.0.0-0 (includes prereleases in range, excludes prereleases from next major)
-	if len(parts) == 2 && (parts[1] == "x" || parts[1] == "X") {
+	// 1.x (also 1.*, 1.x.x) means >=1.0.0-0 <2.0.0-0 (includes prereleases in range, excludes prereleases from next major)
+	if (len(parts) == 2 && isWildcard(parts[1])) || (len(parts) == 3 && isWildcard(parts[1]) && isWildcard(parts[2])) {
 		return []*constraint{
 			{operator: ">=", version: fmt.Sprintf("%d.0.0-0", major)},
 			{operator: "<", version: fmt.Sprintf("%d.0.0-0", major+1)},
@@ -240,7 +240,7 @@ func parseXRange(rangeStr string) ([]*constraint, error) {
 	}
 
 	// 1.2.x means >=1.2.0-0 <1.3.0-0 (includes prereleases in range, excludes prereleases from next minor)
-	if len(parts) == 3 && (parts[2] == "x" || parts[2] == "X") {
+	if len(parts) == 3 && isWildcard(parts[2]) {
 		minor, err := strconv.Atoi(parts[1])
 		if err != nil {
 			return nil, fmt.Errorf("invalid minor version in x-range: %s", parts[1])
@@ -364,9 +364,14 @@ func isXRange(c string) bool {
 		core = core[:i]
 	}
 	for _, part := range strings.Split(core, ".") {
-		if part == "x" || part == "X" {
+		if isWildcard(part) {
 			return true
 		}
 	}
 	return false
+}
+
+// isWildcard reports whether a version component is one of the x-range wildcards (x, X, *)
+func isWildcard(part string) bool {
+	return part == "x" || part == "X" || part == "*"
 }
